@@ -17,6 +17,7 @@ import shutil
 
 from harness import common as C
 from harness.common import cbytes, cbool, clist, copt
+from harness.props import pyfun_util
 
 PID = "C20"
 KEY_DEST_NONE = "dest-mode-none"
@@ -476,6 +477,11 @@ def run(ctx):
 
     # ---- (1) proofs ------------------------------------------------------------
     proofs_ok, detail = ctx.check_proofs(lib_targets=["theories/Lib/Bytes.vo"])
+    # sequence-number update and ack-wait counter arithmetic of send_data regenerated from the source and proved equal
+    # to the model (harness/translators/pyfun.py, theories/C20/{GenPy,GenPyEq,PropertyGenPy}.v, design/PYTRANS.md)
+    gen = pyfun_util.check_generated(ctx, PID)
+    if not gen["ok"]:
+        proofs_ok, detail = False, (detail if not proofs_ok else str(gen["what"])) + gen["detail"]
     ctx.log("proofs:", proofs_ok, detail.splitlines()[0][:200])
 
     if ctx.thorough and proofs_ok:
@@ -723,7 +729,7 @@ def run(ctx):
     ties = [C.source_tie(MAC_REL, 44, 110), C.source_tie(MAC_REL, 867, 937), C.source_tie(MAC_REL, 988, 1051)]
     if tr_info:
         ties += tr_info["ties"]
-    ctx.cov["source_ties"] = ties
+    ctx.cov["source_ties"] = ctx.cov.get("source_ties", []) + ties
     ctx.cov["translator"] = {"ok": tr_ok, "detail": tr_detail[:400],
                              "table_bound_in_mac_module": tr_info["table_bound"] if tr_info else None}
     ctx.cov["correspondence"] = {"addr": [len(addr_terms), len(bad_a)], "raw": [len(raw_terms), len(bad_r)],
